@@ -37,6 +37,10 @@ func VH_C06_render() {
 	n := vx.ParamInt("toklen")
 	// every identifier, bind name, literal value and regex text becomes symbolic
 	fresh := func() string { return vx.String(n) }
+	if vx.ParamInt("fixed") == 1 {
+		// the enumerated shape families: one symbolic byte per token (structure is what varies there)
+		fresh = func() string { return vx.StringN(1) }
+	}
 	for _, sg := range ast.Segments {
 		for i := range sg.Elements {
 			e := &sg.Elements[i]
